@@ -444,6 +444,71 @@ theorem mem_dkeys_addFeed (c : σ → R) (d : List (σ × R)) (cs : Cstr σ) (s 
   rw [hf, mem_dkeys_foldl_dacc]
   simp [dkeys, List.map_map, Function.comp_def]
 
+
+/-! ### lemmas moved out of Props/C03 (they restate definitions) -/
+
+/-- the concentration product reads `reac` only (`rfl`) and is the product over the active reactants -/
+theorem activeConcProd_ignores_other_parts (c : σ → R) (r : Reaction σ R) (prod' inactReac' inactProd' : List (σ × ℕ)) :
+    activeConcProd c { r with prod := prod', inactReac := inactReac', inactProd := inactProd' } = activeConcProd c r ∧
+      activeConcProd c r = (r.reac.map fun jν => c jν.1 ^ jν.2).prod :=
+  ⟨rfl, activeConcProd_eq c r⟩
+
+/-- `ratesDict` is the `KeyError` guard in front of `sysRates` (re-reads the definition) -/
+theorem ratesDict_spec (vars : List (σ × R)) (rs : List (Reaction σ R)) (keys? : Option (List σ))
+    (cstr? : Option (Cstr σ)) :
+    (ratesDict vars rs keys? cstr? = none ↔ ∃ k ∈ neededVars rs cstr?, k ∉ dkeys vars) ∧
+      (∀ d, ratesDict vars rs keys? cstr? = some d → d = sysRates (fun k => dgetD vars k 0) rs keys? cstr?) := by
+  unfold ratesDict missingVars
+  constructor
+  · cases h : List.find? (fun k => !dmem vars k) (neededVars rs cstr?) with
+    | none =>
+      simp only [reduceCtorEq, false_iff, not_exists, not_and, not_not]
+      intro k hk
+      have := List.find?_eq_none.mp h k hk
+      simpa [dmem_iff] using this
+    | some k =>
+      simp only [true_iff]
+      refine ⟨k, List.mem_of_find?_eq_some h, ?_⟩
+      have := List.find?_some h
+      simpa [← dmem_iff] using this
+  · intro d
+    cases h : List.find? (fun k => !dmem vars k) (neededVars rs cstr?) with
+    | none => simp; intro e; exact e.symm
+    | some k => simp
+
+/-- value of `ReactionSystem.rates` at a requested substance, with or without CSTR: contributions + feed terms -/
+theorem valueAt_sysRates_sum (c : σ → R) (rs : List (Reaction σ R)) (keys? : Option (List σ)) (cstr? : Option (Cstr σ))
+    (s : σ) (hs : ∀ ks, keys? = some ks → s ∈ ks) :
+    valueAt (sysRates c rs keys? cstr?) s =
+      (rs.map fun r => contribution c r s).sum + (match cstr? with | none => 0 | some cs => feedSum c cs s) := by
+  cases cstr? with
+  | none => simp [sysRates, valueAt_sysRatesNoFeed_contribution c rs keys? s hs]
+  | some cs => simp [sysRates, valueAt_addFeed_sum, valueAt_sysRatesNoFeed_contribution c rs keys? s hs]
+
+/-! ### stoichiometry matrices -/
+
+omit [DecidableEq σ] in
+/-- entry `(i, j)` of a matrix built row by row -/
+theorem entry_map_map {γ : Type} (f : Reaction σ R → σ → γ) (rs : List (Reaction σ R)) (keys : List σ) (i j : ℕ) :
+    ((rs.map fun r => keys.map (f r))[i]?.bind (·[j]?)) = rs[i]?.bind fun r => keys[j]?.map (f r) := by
+  simp only [List.getElem?_map]
+  cases rs[i]? with
+  | none => rfl
+  | some r => simp [List.getElem?_map]
+
+theorem dgetD_map_cast (d : List (σ × ℕ)) (s : σ) :
+    dgetD (d.map fun kv => (kv.1, (kv.2 : ℤ))) s 0 = ((coef d s : ℕ) : ℤ) := by
+  induction d with
+  | nil => simp [coef, dgetD, dget?]
+  | cons h t ih =>
+    obtain ⟨k, v⟩ := h
+    unfold coef dgetD at ih ⊢
+    simp only [List.map_cons, dget?_cons]
+    by_cases hk : k = s
+    · simp [hk]
+    · simp only [hk, if_false]; exact ih
+
+
 end Ring
 
 /-! ## Part 3: array path -/
@@ -733,6 +798,43 @@ theorem checkRxns_not_raised_or_noComposition {subs : Substances σ A} (hne : su
     | none => exact ih (idx + 1)
     | some kn => simp
 
+/-- "some substance has no composition ⇒ accept" (non-strict) / `ValueError("No composition …")` (strict): re-reads the first
+    `match` of `checkBalance` -/
+theorem checkBalance_of_missing (subs : Substances σ A) (rs : List (Reaction σ ρ)) (s : σ)
+    (h : firstWithoutComposition subs = some s) :
+    checkBalance subs rs false = .ok ∧ checkBalance subs rs true = .noComposition s := by
+  unfold checkBalance
+  rw [h]
+  exact ⟨rfl, rfl⟩
+
+omit [CommRing A] [DecidableEq A] in
+theorem checkSubstanceKeys_iff (subs : Substances σ A) (rs : List (Reaction σ ρ)) :
+    checkSubstanceKeys subs rs = true ↔ ∀ r ∈ rs, ∀ k ∈ rxnKeys r, k ∈ dkeys subs := by
+  unfold checkSubstanceKeys rxnKeys
+  simp only [List.all_eq_true, dmem_iff, mem_dedupKeys]
+
+omit [DecidableEq A] [DecidableEq σ] in
+/-- terms that vanish outside a predicate can be dropped from a sum -/
+theorem sum_map_filter_of_zero {γ : Type} (l : List γ) (p : γ → Bool) (f : γ → A) (h : ∀ x ∈ l, p x = false → f x = 0) :
+    (l.map f).sum = ((l.filter p).map f).sum := by
+  induction l with
+  | nil => rfl
+  | cons a t ih =>
+    have ih' := ih (fun x hx => h x (List.mem_cons_of_mem _ hx))
+    by_cases hp : p a = true
+    · simp [hp, ih']
+    · have hz : f a = 0 := h a (by simp) (by simpa using hp)
+      simp [hp, ih', hz]
+
+omit [CommRing A] [DecidableEq A] in
+theorem netStoich_eq_zero_of_not_mem {r : Reaction σ ρ} {s : σ} (h : s ∉ rxnKeys r) : netStoich r s = 0 := by
+  unfold rxnKeys at h
+  rw [mem_dedupKeys] at h
+  simp only [List.mem_append, not_or] at h
+  unfold netStoich coef
+  rw [dgetD_of_not_mem h.1.1.1, dgetD_of_not_mem h.1.1.2, dgetD_of_not_mem h.1.2, dgetD_of_not_mem h.2]
+  simp
+
 omit [DecidableEq A] [DecidableEq σ] in
 theorem balanceRow_eq (key : ℤ) (subs : Substances σ A) (h : firstWithoutComposition subs = none) :
     balanceRow key subs = .ok (subs.map fun sc => compAt sc key) := by
@@ -980,6 +1082,76 @@ theorem elimLoop_spec {σ : Type} [DecidableEq σ] (m ny : ℕ) (names : ℕ →
         · intro rj hrj hne
           rw [pivot_keeps_col m ny M ri idx hc hz hrj]
           exact hu.2 rj hrj hne
+
+/-! ### coverage for `preferred=None`: every row is served or zero -/
+
+/-- row `rj` is zero on the first `ny` columns -/
+def ZeroRow (ny : ℕ) (M : Mat K) (rj : ℕ) : Prop := ∀ di, di < ny → entry M rj di = 0
+
+theorem pivot_keeps_zero_row (m ny : ℕ) (M : Mat K) (ri idx : ℕ) {rj : ℕ} (hrj : rj < m) (hne : rj ≠ ri)
+    (hidx : idx < ny) (hz : ZeroRow ny M rj) : ZeroRow ny (pivotOn m ny M ri idx) rj := by
+  intro di hdi
+  rw [entry_pivotOn m ny M ri idx hrj hdi]
+  unfold pivotEntry
+  simp [hne, hz idx hidx, hz di hdi]
+
+theorem chooseIdx_none_zero {σ : Type} [DecidableEq σ] (row : ℕ → K) (names : ℕ → σ) (idx fuel : ℕ)
+    (h : chooseIdx row names none idx fuel = none) : ∀ di, idx ≤ di → di < idx + fuel → row di = 0 := by
+  induction fuel generalizing idx with
+  | zero => intro di h1 h2; omega
+  | succ n ih =>
+    unfold chooseIdx at h
+    by_cases hc : row idx ≠ ((0 : ℕ) : K) ∧ allowed (none : Option (List σ)) (names idx) = true
+    · rw [if_pos hc] at h; cases h
+    · rw [if_neg hc] at h
+      intro di h1 h2
+      by_cases he : di = idx
+      · subst he
+        by_contra hne
+        exact hc ⟨by simpa using hne, rfl⟩
+      · exact ih (idx + 1) h di (by omega) (by omega)
+
+theorem elimLoop_cover {σ : Type} [DecidableEq σ] (m ny : ℕ) (names : ℕ → σ) (fuel : ℕ) :
+    ∀ (ri : ℕ) (M : Mat K), ri + fuel ≤ m →
+      let res := elimLoop m ny names ri fuel M (none : Option (List σ))
+      (∀ rj, rj < m → ZeroRow ny M rj → ZeroRow ny res.1 rj) ∧
+      (∀ rj, ri ≤ rj → rj < ri + fuel → (∃ rc ∈ res.2.1, rc.1 = rj) ∨ ZeroRow ny res.1 rj) := by
+  induction fuel with
+  | zero =>
+    intro ri M _
+    simp only [elimLoop]
+    exact ⟨fun _ _ h => h, fun rj h1 h2 => by omega⟩
+  | succ n ih =>
+    intro ri M hle
+    unfold elimLoop
+    cases hch : chooseIdx (entry M ri) names (none : Option (List σ)) 0 ny with
+    | none =>
+      simp only
+      obtain ⟨h1, h2⟩ := ih (ri + 1) M (by omega)
+      refine ⟨h1, ?_⟩
+      intro rj hlo hhi
+      by_cases he : rj = ri
+      · subst he
+        right
+        apply h1 rj (by omega)
+        intro di hdi
+        exact chooseIdx_none_zero (entry M rj) names 0 ny hch di (by omega) (by omega)
+      · exact h2 rj (by omega) (by omega)
+    | some idx =>
+      simp only [Option.map_none]
+      obtain ⟨_, hidx, hnz, _⟩ := chooseIdx_spec (entry M ri) names none 0 ny hch
+      have hidx' : idx < ny := by omega
+      obtain ⟨h1, h2⟩ := ih (ri + 1) (pivotOn m ny M ri idx) (by omega)
+      refine ⟨?_, ?_⟩
+      · intro rj hrj hz
+        have hne : rj ≠ ri := fun e => hnz (e ▸ hz idx hidx')
+        exact h1 rj hrj (pivot_keeps_zero_row m ny M ri idx hrj hne hidx' hz)
+      · intro rj hlo hhi
+        by_cases he : rj = ri
+        · left; exact ⟨(ri, idx), by simp, he.symm⟩
+        · rcases h2 rj (by omega) (by omega) with ⟨rc, hrc, e⟩ | hz
+          · left; exact ⟨rc, List.mem_cons_of_mem _ hrc, e⟩
+          · right; exact hz
 
 omit [DecidableEq K] in
 theorem sum_split_of_nodup (l : List ℕ) (h : l.Nodup) (idx : ℕ) (hm : idx ∈ l) (f : ℕ → K) :
